@@ -548,7 +548,7 @@ def _lock_sites(t, pre_of):
             continue
         nm = x[1]
         if nm.endswith('Mutex::<T>::lock') or nm.endswith('RwLock::<T>::write') or nm.endswith('RwLock::<T>::read'):
-            out.add((x[3], re.sub(r'#\d+\.\d+', '', show(x[2][0], -1000)) if x[2] else ''))
+            out.add((x[3], re.sub(r'#(?:i\d+:)?\d+\.\d+', '', show(x[2][0], -1000)) if x[2] else ''))
         elif nm.endswith('DerefMut::deref_mut') or nm.endswith('Deref::deref'):
             pre = pre_of.get(x[3])
             if pre is not None:
@@ -604,7 +604,7 @@ def check_stale_flow(facts, rep, module_filter, label, floor_sites=1):
                                 rep.violation('E5.L6-no-stale-write', inst,
                                               '%s: `%s` is called through a guard of %s with an argument (%s) that was read under an earlier, already released guard of the same lock; '
                                               'another thread can change the protected state in between, so the update is computed from stale data (lost update - the result depends on the schedule)' %
-                                              (key, nm.split('::')[-1], m_recv, re.sub(r'#\d+\.\d+', '', show(a, -60))[:100]), where='%s:%s' % (b.file, e.line or b.line))
+                                              (key, nm.split('::')[-1], m_recv, re.sub(r'#(?:i\d+:)?\d+\.\d+', '', show(a, -60))[:100]), where='%s:%s' % (b.file, e.line or b.line))
         if not any(v.startswith(key + '|') for v in seen_v):
             rep.ok('E5.L6-no-stale-write', '%s|no value crosses from one critical section into a write of another' % key, 'checked')
     rep.floor('E5.L6 calls made through a lock guard (%s)' % label, n_sections, floor_sites)
@@ -625,7 +625,7 @@ def check_validation_predicate(facts, rep):
     rep.saw(b)
 
     def dk(t):
-        return re.sub(r'&mut _\d+', 'IT', re.sub(r'#\d+\.\d+', '', show(t, -1000))).replace('&', '').replace('*', '')
+        return re.sub(r'&mut _\d+', 'IT', re.sub(r'#(?:i\d+:)?\d+\.\d+', '', show(t, -1000))).replace('&', '').replace('*', '')
     J = 'index(arg3.indices, next(IT).Some.0)'
     rng = set()
     n_loop = 0
